@@ -215,7 +215,7 @@ class Path:
             self.known[key] = True
             yk = y
             for _ in range(k - 1):
-                yk = mul(yk, y)
+                yk = mk("mul", (yk, y), "R")  # raw node: the sqrt(x)*sqrt(x) -> x rewrite must not apply to the definition
             lhs = yk if x.d is None else mul(yk, x.d)
             self.defs.append(cmp("le", core.R0, y))
             self.defs.append(cmp("eq", lhs, x.n))
@@ -355,6 +355,7 @@ class Explorer:
             return
         s = z3.Solver()
         s.set("rlimit", self.rlimit)
+        s.set("timeout", 20000)
         added = 0
         new = []
         for i in todo:
@@ -408,6 +409,7 @@ class Explorer:
             if r is None:
                 s = z3.Solver()
                 s.set("rlimit", self.rlimit)
+                s.set("timeout", 10000)
                 s.add(to_z3(bnot(cmp("eq", q, h))))
                 r = self._check(s) == z3.unsat
                 self._cert_cache[key] = r
@@ -449,6 +451,7 @@ class Explorer:
                                  z3.Q(Fraction(val).numerator, Fraction(val).denominator)))
             s2 = z3.Solver()
             s2.set("rlimit", self.rlimit)
+            s2.set("timeout", 10000)
             cs = [to_z3(c) for c in p.pc[:pclen]] + [zt]
             if subs:
                 cs = [z3.substitute(c, *subs) for c in cs]
